@@ -1,5 +1,6 @@
 import AsynqModel.Sexp
 import AsynqModel.Lib.Batching
+import AsynqModel.Lib.BatchingHook
 /-! driver glue for mode `batching` (property C11) -/
 namespace AsynqModel.Drv.Batching
 open AsynqModel AsynqModel.Batching
@@ -119,11 +120,14 @@ def firstDiff (a b : List Obs) (i : Nat := 0) : Option (Nat × String) :=
   | x :: _, [] => some (i, s!"model={x.op.name} impl=<missing>")
   | [], y :: _ => some (i, s!"model=<missing> impl={y.op.name}")
 
-def judge (id : Nat) (k : Kind) (keep : Bool) (scripts : List Script) (body : List Sexp) : String :=
+/-- `hook` = the Exception token the harness subclass's `_cancel()` raises (none: it returns); the model is the code as
+    it is (`runH`, Lib/BatchingHook.lean; `runH none = run`: Theorems/C11.lean `runH_none`) -/
+def judge (id : Nat) (k : Kind) (keep : Bool) (scripts : List Script) (body : List Sexp) (hook : Option Nat := none) :
+    String :=
   match body.mapM (obs? k keep) with
   | some impl =>
     let ops := impl.map (·.op)
-    let model := run scripts (init k keep) ops
+    let model := runH hook scripts (init k keep) ops
     let corr := firstDiff model impl
     let spec := specClause k impl keep
     let specm := specClause k model keep
@@ -133,7 +137,7 @@ def judge (id : Nat) (k : Kind) (keep : Bool) (scripts : List Script) (body : Li
     s!"R {id} CORR={c} SPEC={f spec} SPECM={f specm} | {d}"
   | none => s!"R {id} CORR=diff SPEC=ok SPECM=ok | unparsable observation"
 
-/-- `hdr` = `<kind> [(keep 0|1)] (scripts (script ...) ...)`; `body` = the observation lines -/
+/-- `hdr` = `<kind> [(keep 0|1)] [(hook <token>)] (scripts (script ...) ...)`; `body` = the observation lines -/
 def handle (id : Nat) (hdr : List Sexp) (body : List Sexp) : String :=
   match hdr with
   | [k, .list (.atom "scripts" :: ss)] =>
@@ -144,6 +148,10 @@ def handle (id : Nat) (hdr : List Sexp) (body : List Sexp) : String :=
     match kind? k, kp.bool?, ss.mapM script? with
     | some k, some keep, some scripts => judge id k keep scripts body
     | _, _, _ => s!"R {id} CORR=diff SPEC=ok SPECM=ok | unparsable case header"
+  | [k, .list [.atom "keep", kp], .list [.atom "hook", h], .list (.atom "scripts" :: ss)] =>
+    match kind? k, kp.bool?, h.nat?, ss.mapM script? with
+    | some k, some keep, some x, some scripts => judge id k keep scripts body (some x)
+    | _, _, _, _ => s!"R {id} CORR=diff SPEC=ok SPECM=ok | unparsable case header"
   | _ => s!"R {id} CORR=diff SPEC=ok SPECM=ok | unparsable case header"
 
 /-! ### family `reenter` (mode `batchingx`): code that re-enters the batch it is called from
